@@ -1,5 +1,6 @@
 (* Driver for the extracted M-TX model: scenarios of `atlas migrate apply`
    invocations (optionally crashing at a named point) on one database. *)
+type str = string
 open Model
 
 let rec nat_of_int i = if i <= 0 then O else S (nat_of_int (i - 1))
@@ -9,42 +10,44 @@ let n_of_int i = if i = 0 then N0 else Npos (pos_of_int i)
 let rec int_of_pos = function XH -> 1 | XO p -> 2 * int_of_pos p | XI p -> 2 * int_of_pos p + 1
 let int_of_n = function N0 -> 0 | Npos p -> int_of_pos p
 
-let bytes_of_string (s : string) : bytes =
+let bytes_of_string (s : str) : bytes =
   Stdlib.List.init (String.length s) (fun i -> n_of_int (Char.code s.[i]))
-let string_of_bytes (b : bytes) : string =
+let string_of_bytes (b : bytes) : str =
   String.concat "" (Stdlib.List.map (fun x -> String.make 1 (Char.chr (int_of_n x))) b)
-let unhex (h : string) : string =
+let unhex (h : str) : str =
   if h = "-" then "" else
   String.init (String.length h / 2) (fun i -> Char.chr (int_of_string ("0x" ^ String.sub h (2 * i) 2)))
-let hex (s : string) : string =
+let hex (s : str) : str =
   if s = "" then "-" else String.concat "" (Stdlib.List.init (String.length s) (fun i -> Printf.sprintf "%02x" (Char.code s.[i])))
-let hs (b : bytes) : string = Sha256.hs (string_of_bytes b)
-let heq (a : string) (b : string) = (a = b)
+let hs (b : bytes) : str = Sha256.hs (string_of_bytes b)
+let heq (a : str) (b : str) = (a = b)
 let b2s b = if b then "1" else "0"
 
 (* journal entry = the number between parentheses of the statement text *)
-let stmt_id (s : string) : string =
+let stmt_id (s : str) : str =
   try
     let i = String.index s '(' and j = String.index s ')' in
     String.sub s (i + 1) (j - i - 1)
   with Not_found -> "?"
 
-let show_rev (r : string rev) =
+let show_rev (r : str rev) =
   Printf.sprintf "%s:%d:%d:%d:%s:%d" (string_of_bytes r.r_version) (int_of_nat r.r_applied) (int_of_nat r.r_total)
     (Stdlib.List.length r.r_hashes) (b2s r.r_err) (int_of_n r.r_kind)
 
-let show_db (d : string db) =
+let show_db (d : str db) =
   Printf.sprintf "journal=[%s] revs=[%s]"
     (String.concat "," (Stdlib.List.map (fun s -> stmt_id (string_of_bytes s)) d.d_journal))
     (String.concat " " (Stdlib.List.map show_rev (read_revisions d.d_tbl)))
 
-let point_name = function
-  | BeforeExec -> "before-exec" | AfterExec -> "after-exec" | BeforeWrite -> "before-write"
-  | AfterWrite -> "after-write" | BeforeCommit -> "before-commit" | AfterCommit -> "after-commit"
-let point_of = function
-  | "before-exec" -> BeforeExec | "after-exec" -> AfterExec | "before-write" -> BeforeWrite
-  | "after-write" -> AfterWrite | "before-commit" -> BeforeCommit | "after-commit" -> AfterCommit
-  | s -> failwith ("point " ^ s)
+(* names of the crash points: the extracted Exec/CrashPointsModel.v (Coq strings -> OCaml) *)
+let char_of_ascii (Ascii (b0, b1, b2, b3, b4, b5, b6, b7)) =
+  let bit b i = if b then 1 lsl i else 0 in
+  Char.chr (bit b0 0 + bit b1 1 + bit b2 2 + bit b3 3 + bit b4 4 + bit b5 5 + bit b6 6 + bit b7 7)
+let rec ostring = function EmptyString -> "" | String (a, r) -> Stdlib.String.make 1 (char_of_ascii a) ^ ostring r
+let point_name p = ostring (Model.point_name p)
+let point_of s =
+  match Stdlib.List.find_opt (fun p -> point_name p = s) all_points with
+  | Some p -> p | None -> failwith ("point " ^ s)
 
 let toks = ref [||]
 let pos = ref 0
@@ -87,7 +90,7 @@ let starts_with p s = String.length s >= String.length p && String.sub s 0 (Stri
 (* what PRAGMA foreign_key_check reports for a set of effects: measured by the harness with an
    independent client for the initial database and for each statement that touches the FK tables
    (at most one of them is ever present): the set of the last such statement, else the initial one *)
-let violations_of pre (special : (string * (string * violation list)) list) (j : bytes list) : violation list =
+let violations_of pre (special : (str * (str * violation list)) list) (j : bytes list) : violation list =
   Stdlib.List.fold_left (fun acc s ->
     match Stdlib.List.assoc_opt (string_of_bytes s) special with Some (_, vs) -> vs | None -> acc) pre j
 
